@@ -36,7 +36,10 @@ BigVals == {WideA(n, x) : n \in {999, 1000, 1001, 5001, 10000, 10001, 12000}, x 
            \cup {WideA(9990, WideA(20, VNull)), WideA(9990, WideA(20, VTrue))}
            \cup {WideO(n, x) : n \in {300, 301}, x \in {VNum(N_one), VNull}} \cup {WideORev(n, VNum(N_one)) : n \in {300, 301}}
            \cup {LongS(n, c) : n \in {255, 256, 257, 5000}, c \in {97, 98}}
+\* every pair of catalogue numbers (tolerance boundaries at +1, -1, -2, 1.75, 2^52, 1e300, the int range, zero, non-finite), bare and inside an array
+AllNums == {VNum(n) : n \in NumIds} \cup {VArr(<<VNum(n)>>) : n \in NumIds}
 Universe(cs0) == IF Tier = "quick" THEN Scal(NumsQ) \cup L1(cs0)
+                 ELSE IF Tier = "nums" THEN AllNums
                  ELSE IF Tier = "big" THEN BigVals
                  ELSE Scal(NumsT) \cup L1(cs0) \cup L2(cs0)
 
@@ -49,7 +52,7 @@ Check(x, y, c) ==
   /\ Emit => PrintT(ToJson(<<"C", JV(x), JV(y), c, sem>>))
 
 Next == /\ phase = 0 /\ phase' = 1 /\ UNCHANGED <<a, cs>>
-        /\ b' \in (IF Tier = "big" THEN {y \in Universe(cs) : y.t = a.t /\ Len(y.m) = Len(a.m) /\ Len(y.s) = Len(a.s)} ELSE Universe(cs))   \* wide values only against their own variants
+        /\ b' \in (IF Tier = "nums" THEN {y \in Universe(cs) : y.t = a.t} ELSE IF Tier = "big" THEN {y \in Universe(cs) : y.t = a.t /\ Len(y.m) = Len(a.m) /\ Len(y.s) = Len(a.s)} ELSE Universe(cs))   \* wide values only against their own variants
         /\ Check(a, b', cs)
 
 RECURSIVE HasNaN(_)
